@@ -4,6 +4,8 @@ CONSTANTS NC = 1
   MaxPS = 3
   NoiseKinds <- MCNoiseAll
   ErrKinds <- MCErrAll
+  Segs <- MCSegAll
+  MaxAcc = 3
   D = 1
 INIT Init
 NEXT Next
